@@ -129,7 +129,7 @@ ROUND6 = {
     "C06": "Leftover metadata in the fallback location below the root directory; only the first chunk recorded and torn; the receiver's hash of the highest recorded chunk taking longer than its own timeout (hook recv.resume.hash): the chunk must still be repaired.",
     "C07": "Paths that climb out only behind 64 harmless components (Paths.tla shape 'deep'); hostile ids on empty files; a regular file of the user in the place of the metadata directory.",
     "C09": "ConnRace.tla covers the receiver's relay listener (ExtrasMeet, switch ExtrasOnDirect refuted); every direct candidate unreachable and listed twice, with and without a reachable relay candidate.",
-    "C10": "The real signaling client (internal/wsclient) sends a batch and closes at once: the reading recipient gets every envelope Send accepted, in order; a recipient whose connection stalls until its hub queue overflows and then comes back receives an increasing subsequence of what the author sent.",
+    "C10": "The real signaling client (internal/wsclient) sends a batch and closes at once (with its reader running, and with what the server sent it still unread): the reading recipient gets every envelope Send accepted, in order; a recipient whose connection stalls until its hub queue overflows and then comes back receives an increasing subsequence of what the author sent.",
     "C11": "Expiry with a stuck peer among eight: every other peer must be disconnected whatever the stuck one's position in the close loop.",
     "C12": "DispatchLoop.tla covers receivers leaving while their transfer runs, their transfer function returning later and late accepts (NoDeadStart, switch TailUsesOwnCtx refuted), replayed on the real loop; the replay uses the real status logger as state-change callback and bounds every handler call.",
     "C13": "One scanned manifest served to two receivers in a row must be unchanged afterwards.",
